@@ -13,12 +13,43 @@ def _fresh(x):
     return ''.join(list(x)) if isinstance(x, str) and x else x
 
 
+SHAPES = {'calls_by_keyword': 0}
+
+
+def _param_names(f, n):
+    """Names of the first n parameters of a library converter if they may be passed by keyword, else None."""
+    import inspect
+    if getattr(f, '__module__', None) is None or not str(getattr(f, '__module__', '')).startswith('bridge_env'):
+        return None
+    try:
+        ps = list(inspect.signature(f).parameters.values())
+    except (TypeError, ValueError):
+        return None
+    if len(ps) < n or any(q.kind is not q.POSITIONAL_OR_KEYWORD for q in ps[:n]):
+        return None
+    return [q.name for q in ps[:n]]
+
+
 def _try(f, *a):
+    """f(*a) - and, for a library converter with named parameters, the same call with the arguments passed by keyword (all of them, and
+    all but the first): a caller that writes `str_to_contract(text, vul=v, declarer=d)` asks the same question.  A disagreement comes
+    back as a text that no expectation matches."""
     a = tuple(_fresh(x) for x in a)
     try:
-        return f(*a)
+        r = f(*a)
     except Exception as e:  # noqa
         return f'raised {type(e).__name__}: {e}'
+    names = _param_names(f, len(a)) if a else None
+    if names:
+        for k in sorted({0, 1} if len(a) > 1 else {0}):
+            SHAPES['calls_by_keyword'] += 1
+            try:
+                r2 = f(*a[:k], **dict(zip(names[k:], (_fresh(x) for x in a[k:]))))
+            except Exception as e:  # noqa
+                r2 = f'raised {type(e).__name__}: {e}'
+            if not (r2 == r and type(r2) is type(r)):
+                return f'call shapes disagree: {getattr(f, "__qualname__", f)}{a!r} -> {r!r}, with {names[k:]} passed by keyword -> {r2!r}'
+    return r
 
 
 def run(tier, seed, workers):
@@ -198,15 +229,18 @@ def run(tier, seed, workers):
         c.violate('contract:injective:Passed_out', 'a real contract prints as Passed_out', {})
 
     n = c.get('evals') + c.get('pairs')
+    c.inc('calls_repeated_with_keyword_arguments', SHAPES['calls_by_keyword'])
+    SHAPES['calls_by_keyword'] = 0
     cov = {'states': c.distinct('vals'), 'transitions': n, 'traces_validated_against_impl': n,
            'evaluations': n, 'distinct_nontrivial': c.distinct('vals'), 'ordered_pairs_checked': c.get('pairs'),
            'rule': 'complete domains: 52 cards (index, text, rank letters, constructor; all 52x52 ordered pairs for <,<=,>,>=,==), '
                    '38 calls (index, text, level+denomination; 35x35 rank order), 5 denominations, 4 seats (name, formal name, '
                    'geometry), 2 sides, 4 vulnerabilities (str, PBN, alias spellings, per-seat is_vul), '
                    '(35 bids x {undoubled, doubled, redoubled[2 flag encodings]} + 2 passed-out encodings) x 4 vul x 5 declarers; '
-                   'distinct = distinct values converted',
+                   'distinct = distinct values converted; every library converter with named parameters is also called with its arguments passed by keyword',
            'samples': [{'card': 'int 23 <-> "DQ" <-> Card(12, D)'}, {'call': 'idx 14 <-> "3NT" <-> (3, NT)'},
                        {'contract': '"4SXX" vul=NS declarer=W -> level 4, S, redoubled'}],
+           'calls_repeated_with_keyword_arguments': c.get('calls_repeated_with_keyword_arguments'),
            'exhaustive': True}
     return Result(cov, c.violations, ['doubling compared as status (redoubled / doubled / undoubled), not raw x/xx flags'])
 
